@@ -175,15 +175,15 @@ Masks == {"none", "bhst", "b1st", "11st", "b11t", "1hst", "st", "1t", "t", "hst"
 \* <<B, H, S, T, Dh, Dv>>
 SdpaSz == IF Big THEN {<<2, 2, 3, 4, 4, 4>>, <<1, 1, 1, 1, 2, 2>>, <<2, 4, 3, 3, 8, 4>>, <<1, 2, 1, 5, 4, 8>>}
           ELSE {<<2, 2, 3, 4, 4, 8>>}
+SdpaMasks == IF Big THEN Masks ELSE {"none", "bhst", "b11t", "st", "t", "hst", "b1s1"}
 SdpaCfgs == {[fam |-> "sdpa", dt |-> dt, kfmt |-> kf, qs |-> sf[1], ks |-> sf[2], qks |-> sf[3], sc |-> sf[4], mask |-> m,
               nanfix |-> nf, B |-> z[1], H |-> z[2], S |-> z[3], T |-> z[4], Dh |-> z[5], Dv |-> z[6]] :
-             dt \in DT, kf \in {"t4", "r3", "bshd"}, sf \in (IF Big THEN ScaleForms ELSE ScaleFormsSmall), m \in Masks, nf \in BOOL, z \in SdpaSz}
+             dt \in DT, kf \in {"t4", "r3", "bshd"}, sf \in (IF Big THEN ScaleForms ELSE ScaleFormsSmall), m \in SdpaMasks, nf \in BOOL, z \in SdpaSz}
 MhaBias == IF Big THEN {<<"none", "none", "none">>, <<"vec", "vec", "vec">>, <<"vec", "none", "none">>, <<"none", "none", "vec">>,
                         <<"one", "none", "none">>, <<"full", "vec", "vec">>, <<"row", "none", "vec">>}
-           ELSE {<<"none", "none", "none">>, <<"vec", "vec", "vec">>, <<"none", "none", "vec">>, <<"one", "none", "none">>,
-                 <<"full", "vec", "vec">>}
+           ELSE {<<"none", "none", "none">>, <<"vec", "vec", "vec">>, <<"one", "none", "none">>, <<"full", "vec", "vec">>}
 MhaMasks == IF Big THEN {"none", "bhst", "b1st", "11st", "b11t", "st", "1t", "hst", "b1s1"}
-            ELSE {"none", "b1st", "b11t", "st", "hst", "b1s1"}
+            ELSE {"none", "b1st", "b11t", "st", "hst", "b1s1"} \ {"b1st"}
 \* <<B, S, T, H, Dh>>  (T is used only without projections: with them key/value come from the same input)
 MhaSz == IF Big THEN {<<2, 3, 4, 2, 4>>, <<1, 1, 1, 1, 2>>, <<1, 2, 2, 4, 2>>} ELSE {<<2, 3, 4, 2, 4>>}
 MhaCfgs == {[fam |-> "mha", dt |-> dt, proj |-> pj, bq |-> bb[1], bk |-> bb[2], bv |-> bb[3], kfmt |-> kp[1], past |-> kp[2],
